@@ -1,6 +1,7 @@
 (* C19 model driver. Case line (sections separated by '|'):
      <n> <k> | <valid mask, n chars 0/1, or -> | <scripts: e:op,op;e:op or -> | <ops: op,op,... or ->
-   op ::= W e t | F e dt | C e dt | U e t | G e dt | D e dt | E e | N m | T t | P t   (P only at top level)
+   op ::= W e t | F e dt | C e dt | U e t | G e dt | D e dt | E e | N m | T t | P t | L t1 d m c   (P, L only at top level;
+         L = one Thread::event_loop iteration: clock t1, call_events takes d and runs script c (or -), thread next_timeout() = m)
    Output: one token per top-level op ('.', ERR:internal, N=<r>, P[<fired entry | N=r | ERR:internal | FUEL>*])
            then '| S[e:due ...] H[time:entry|- ...]' (final scheduled entries and the raw heap array). *)
 let parse_bop toks = match toks with
@@ -16,6 +17,8 @@ let parse_bop toks = match toks with
   | _ -> failwith "bop"
 let parse_op s = match split_ws s with
   | ["P"; t] -> Perform (z_of_string t)
+  | ["L"; t1; d; m; c] -> Loop (z_of_string t1, z_of_string d, z_of_string m,
+                                (if c = "-" then None else Some (nat_of_int (int_of_string c))))
   | toks -> Basic (parse_bop toks)
 let split_list c s = let s = String.trim s in
   if s = "-" || s = "" then [] else List.map String.trim (String.split_on_char c s)
@@ -27,8 +30,9 @@ let show_evs top evs = match evs, top with
       | EFire (e, _) -> Some (string_of_int (int_of_nat e))
       | EOut OOk -> None
       | EOut o -> Some (show_out o)
-      | EFuel -> Some "FUEL") evs in
-    "P[" ^ String.concat " " items ^ "]"
+      | EFuel -> Some "FUEL"
+      | ELoop (t, n, r) -> Some ("th=" ^ string_of_z t ^ " sc=" ^ string_of_z n ^ " r=" ^ string_of_z r)) evs in
+    (match top with Loop _ -> "L[" | _ -> "P[") ^ String.concat " " items ^ "]"
 let () = each_line (fun line ->
   match String.split_on_char '|' line with
   | [hd; mask; scr; ops] ->
